@@ -134,6 +134,8 @@ class EngineBase(PathMgr):
         self._add_axiom(z3.Select(self.st.dlen, r) >= 0)
         self.bound_ref(v)
         self.json_closed(d, v)
+        if getattr(self, 'norm_of', None):
+            self.norm_member_fact(d, k, v)
         et = self.container_elem_type.get(smt.simp(d).get_id())
         if et is not None and self.is_initial_read(v):
             if et.startswith(('list[', 'dict[')):
